@@ -25,7 +25,8 @@ Oracle : the harness evaluates every condition itself, exactly (Fractions, in th
                                        not disarmed (cancel, enclosing block end, re-arming, error) and still no first
                                        body line effect; W = latency measured on the tree under test + 2 ticks
   alarm-not-rearmed                    W Running ticks after an Alarm run completed without the Alarm being armed again
-  alarm-run-not-completed              an activation of an Alarm (not inside an Alarm, no thresholds in its body) whose body run
+  alarm-run-not-completed              (only own End block lines executed in the compared runs) an activation of an Alarm (not
+                                       inside an Alarm, no thresholds in its body) whose body run
                                        has not completed N + 3 ticks later, N = longest earlier completed run of the same
                                        body; judged only while Running, without error / user End block, with the enclosing
                                        blocks alive and no block active other than enclosing ones and the body's own
@@ -96,7 +97,7 @@ class Model:
                 self.irq[l.id] = {"kind": l.kind, "cond": l.node["cond"], "blocks": blocks, "alarm_anc": alarm_anc,
                                   "nested": irq_anc, "sentinel": sentinel, "text": l.text.strip(), "thr": l.node.get("t")}
         for q in self.irq.values():
-            q["direct_blocks"], q["direct_thr"] = set(), False
+            q["direct_blocks"], q["direct_thr"], q["direct_ends"] = set(), False, set()
         for l in lines:
             p = l.parent
             while p is not None and by_id[p].kind not in H.INTERRUPT_KINDS:
@@ -106,6 +107,8 @@ class Model:
             # l runs in the thread of interrupt p
             if l.kind == "block":
                 self.irq[p]["direct_blocks"].add(l.payload)
+            if l.kind in ("endblock", "endblocks"):
+                self.irq[p]["direct_ends"].add(l.id)
             if l.node is not None and l.node.get("t") is not None:
                 self.irq[p]["direct_thr"] = True
             if l.kind in ("mark", "quick", "slow"):
@@ -205,7 +208,11 @@ def analyse(case, tr, latency):
             nxt = A[j + 1] if j + 1 < len(A) else INF
             ta = ev[a][0]
             seg_acts = [i for i in acts[x] if a < i < nxt]
-            seg_effs = [f for f in effs[x] if a < f[0] < nxt]
+            # a command requested by a body line starts in the command phase of that tick or of the next one: a command start not
+            # later than one tick after an arming event still belongs to the run of the previous arming
+            ta_n = ev[nxt][0] if nxt < INF else INF
+            seg_effs = [f for f in effs[x] if (a < f[0] < nxt and not (f[3] and j > 0 and f[1] <= ta + 1))
+                        or (f[3] and nxt < INF and f[0] > nxt and f[1] <= ta_n + 1 and (j + 2 >= len(A) or f[0] < A[j + 2]))]
             rearm = ":rearm" if kind == "alarm" and j > 0 and not q["nested"] else ""
             # ---- once per arming ---------------------------------------------------------------
             if len(seg_acts) > 1:
@@ -340,6 +347,10 @@ def analyse(case, tr, latency):
                 if not active <= allowed:
                     return False
                 if any(block_state_before(b, ai) == "block_end" for b in q["blocks"]):
+                    return False
+                # only the body's own End block / End blocks lines may have executed: an End block of another thread that ends
+                # a block of this body shortens (or alone enables) the completion of this run, not of the next one
+                if any(k <= t <= t_to and lid not in q["direct_ends"] for t, lid in tr.endblock_exec):
                     return False
                 return not any(i > ai and ev[i][0] <= t_to for i in user_end) and \
                     not any(i <= ai and ev[i][0] >= k - 1 for i in user_end)
